@@ -142,3 +142,47 @@ Print Assumptions c20_noindex_without_reset_large_refuted. Print Assumptions c20
 Print Assumptions c20_dashmap_counts_constant. Print Assumptions c20_dashmap_write_keeps_count. Print Assumptions c20_example_run.
 Print Assumptions c20_noindex_life_total. Print Assumptions c20_noindex_life_no_loss. Print Assumptions c20_noindex_keep_prebuilt_small_pool.
 Print Assumptions c20_noindex_keep_prebuilt_large_pool_refuted. Print Assumptions c20_example_life.
+
+(* ================= pool dependence inside an ENGINE run (Engine/ParIndexed*.v, see Props/C02.v) =================
+   update_indices in the run pool establishes the run pool's shard shape whatever the fields held before; without that hypothesis the
+   engine-level conclusions fail: a no-index field created for a smaller pool with the modulo dropped panics, a delta created in a larger pool
+   merged shard-wise into a fresh total loses a row in the no-index while the full and hash indices keep it. *)
+From Coq Require Import List ZArith Bool Arith Permutation.
+From AV Require Import Index.IndexModel.
+From AV Require Import Engine.Core Engine.Sem Engine.Eval Engine.Validate Engine.Naive Engine.ParStep.
+From AV Require Import Engine.ParIndexedModel Engine.ParIndexedValue Engine.ParIndexedIter Engine.ParIndexedRefine Engine.ParIndexedExample.
+Import ListNotations.
+Local Open Scope nat_scope.
+Theorem c20_par_indexed_update_indices_establishes_pool_shape :
+  forall (hash : Z -> nat) (enc : list Z -> Z) (nsh : nat), nsh <> 0%nat ->
+  forall (nomod : bool) (pool : nat) st st',
+    pix_update_indices hash enc nsh nomod pool st st' ->
+    abs_x st' = update_indices (abs_x st) /\ fields_good hash enc nsh pool (xstored st') (xfields st')
+    /\ map fst (xfields st') = map fst (xfields st).
+Proof. intros hash enc nsh Hn nomod pool. exact (pix_update_indices_good hash enc nsh Hn nomod pool). Qed.
+
+(* ---- without the pool hypothesis *)
+(* no-index variables created for a SMALLER pool (1 thread; e.g. a shard count cached process-wide in the first pool) and
+   the modulo dropped: thread 1 of the run pool indexes shard 1 of a 1-shard vector = Panic; the real insert (modulo) on
+   the same store, work and schedule succeeds *)
+Theorem c20_par_indexed_small_pool_nomod_refuted :
+  iteration_fn sh_id ex_hash ConcreteEval.enc_list true ex_rows (ex_store 1 1 [(0, [1; 2]%Z)]) ex_work ex_sched = Panic
+  /\ exists s', iteration_fn sh_id ex_hash ConcreteEval.enc_list false ex_rows (ex_store 1 1 [(0, [1; 2]%Z)]) ex_work ex_sched
+                = Ok ([(0, [3; 4]%Z); (0, [5; 6]%Z)], [(0, [1; 2]%Z); (0, [3; 4]%Z); (0, [5; 6]%Z)], true, s').
+Proof. exact ex_small_pool_nomod_refuted. Qed.
+
+(* a delta field created in a LARGER pool (2 threads, its row in shard 1) merged shard-wise into a total created in the run
+   pool of 1 thread: afterwards the full and the hash index of total hold the row, the no-index does not (lock-step broken,
+   the row is dropped with new at the end of the SCC) — the engine-level face of NoIndexPools.run_index_noreset_large_refuted *)
+Theorem c20_par_indexed_large_pool_merge_refuted :
+  exists s', iteration_fn sh_id ex_hash ConcreteEval.enc_list false ex_rows (ex_store 1 2 [(1, [1; 2]%Z)]) [[]; []] [] = Ok ([], ex_rows, false, s')
+    /\ sdump s' = [ ([([1; 2]%Z, [])],  [],  []);
+                    ([([1]%Z, [2]%Z)],  [],  []);
+                    ([],                [],  [([], [1; 2]%Z)]) ].
+Proof. exact ex_large_pool_merge_refuted. Qed.
+
+(* a 2-worker iteration with 3 indices (full, hash, no-index), evaluated: the hypotheses are satisfiable and the result is
+   the expected one in all three indices *)
+Print Assumptions c20_par_indexed_update_indices_establishes_pool_shape.
+Print Assumptions c20_par_indexed_small_pool_nomod_refuted.
+Print Assumptions c20_par_indexed_large_pool_merge_refuted.
